@@ -224,6 +224,36 @@ def run(P, C, tier):
                         if atom[0] == "bin" and atom[1] == "Lt" and truth is False and "mdate" in term_str(atom):
                             ok = True
     C.ob("R1", "prepare_room_with_history:group-row-date-rule", ok, rh.loc(), "a candidate group row that is not newer than the stored one is replaced by the stored row")
+    # the lists of a group known to both sides are ALWAYS merged: prepare_auth_with_history both validates the new entries
+    # and pushes back the stored entries the candidate lacks, so an iteration that skips it (e.g. "the candidate's group is
+    # not newer") lets the candidate's lists replace the stored ones: entries vanish, unvalidated entries pass
+    pa = [bi for bi, t in rh.calls_to(r"room_node::prepare_auth_with_history$")]
+    C.floor("R1", "group merge call sites", len(pa), 2)
+    if pa:
+        hdr = rights.enclosing_loop_header(rh, pa[0])
+        some_targets = []
+        for sb in rh.live_blocks():
+            t = rh.blocks[sb]["t"]
+            if t["k"] != "switch":
+                continue
+            term = rh.switch_term(sb, expand_vars=True)
+            if term[0] != "discr" or mir.has_call(term[1], r"::find$") is None or not rh.dominates(sb, pa[0]):
+                continue
+            if "auth_nodes" not in term_str(term):
+                continue
+            for tg, vals in rights.switch_edges(rh, sb):
+                dv = mir.discr_variants(term, vals)
+                if dv and dv[1] == ["Some"]:
+                    some_targets.append(tg)
+        ra = mir.return_assignments(rh)
+        ok = hdr is not None and bool(some_targets)
+        if ok:
+            for st_ in some_targets:
+                r = rh.reachable(st_, avoid_blocks=set(pa))
+                if hdr in r or (r & set(ra["Ok"])):
+                    ok = False
+        C.ob("R1", "prepare_room_with_history:group-lists-always-merged", ok, rh.loc(pa[0]),
+             "for a group present in both definitions every path to the next iteration or to Ok goes through prepare_auth_with_history: %s" % ok)
     # ---- R2
     entitlement(C, P, "room_node::prepare_room_with_history", NODE_LISTS_ROOM)
     entitlement(C, P, "room_node::prepare_auth_with_history", NODE_LISTS_AUTH)
